@@ -7,15 +7,18 @@ Theorems about `Model/AdaptDriver`: `performSpatiallyAdaptiv(L1)` followed by `c
 (with or without `save_to_file`/`restore_from_file` in between) against one `performSpatiallyAdaptiv(L2)`, for
 EVERY strategy (abstract `eval`/`refine`), EVERY interruption index and all limits.
 
-The property is FALSE of the unchanged code in two configurations (mirrored by the two concrete machines of the
-model, counterexamples below):
-* extend–split: `evaluate_operation` adds `get_new_areas()` to the running integral again (`incMachine`);
+The extend–split discipline (`incMachine`: new areas are ADDED to the running integral) is re-entrant since repo
+commit 48b37d3 (`evaluate_operation` ends with `clear_new_objects()`): `incremental_reentrant` below, so
+`resume_eq_single` applies to it at every interruption state.  The property is still FALSE of the code in one configuration
+(mirrored, counterexample below):
 * dimension-wise WITHOUT reference solution: `add_volume` accumulates, the re-evaluated total surplus error — which
   is the error the stopping rule reads — doubles (`scrMachine`, `ref = none`).
-The general theorem isolates the hypothesis that fails there: re-entrance of `eval` at the interruption state.
+The general theorem isolates the hypothesis that fails there: re-entrance of `eval` at the interruption state; that the
+hypothesis cannot be dropped is shown on a machine that adds its new areas again (`leakyMachine`, the discipline of the
+code BEFORE that commit).
 
-Full statement of the property (NOT provable, refuted below by `resume_eq_single_fails_without_reentrance` and
-`resume_counterexample_scratch_noref` on the mirrored disciplines):
+Full statement of the property (NOT provable for arbitrary strategies: `resume_eq_single_fails_without_reentrance`;
+refuted for the mirrored dimension-wise discipline without reference: `resume_counterexample_scratch_noref`):
 
     ∀ M L1 L2 s0 r, L1.grow L2 → run M L2 f s0 = some r →
       ∃ r2, resume M L1 L2 f1 f2 s0 = some r2 ∧ SameStructureSchemeResultPoints r2.state r.state
@@ -138,33 +141,56 @@ theorem scratch_reentrant (s : AccState) (r : Rat) (hr : s.ref = some r) :
     unfold accRefine
     simp only [scrEval]
 
-/-- witness for the extend–split defect: two areas, reference 1, two scripted splits -/
+/-- two areas, reference 1, two scripted splits -/
 def esStart : AccState := ⟨0, [1/2, 1/4], 0, [0, 0], [(0, [1/4, 1/8]), (0, [1/8, 1/16])], some 1⟩
 
 def stopAt3 : Limits := ⟨-1, 1, some 2⟩   -- stops as soon as there are 3 areas
 def stopAt4 : Limits := ⟨-1, 1, some 3⟩   -- stops as soon as there are 4 areas
 
-/-- **counterexample (extend–split discipline).**  Limits grow (`max` 2 → 3); the single run ends with integral
-`9/16` (= the sum of its four areas); stopping at 3 areas and continuing ends with the same four areas, the same
-point count, but integral `15/16`: the two areas that were new at the stop were added twice (`1/4 + 1/8`). -/
-theorem resume_counterexample_incremental :
-    stopAt3.grow stopAt4 ∧
-    (run incMachine stopAt4 5 esStart).map (fun r => (r.state.acc, r.state.areas, r.last.pts)) =
-      some (9/16, [1/4, 1/8, 1/8, 1/16], 4) ∧
-    (resume incMachine stopAt3 stopAt4 5 5 esStart).map (fun r => (r.state.acc, r.state.areas, r.last.pts)) =
-      some (15/16, [1/4, 1/8, 1/8, 1/16], 4) ∧
-    (run incMachine stopAt3 5 esStart).map (fun r => decide ((incEval r.state).1.acc = r.state.acc)) = some false := by
-  refine ⟨⟨by decide +kernel, by decide, by show (2 : Int) ≤ 3; decide⟩, by decide +kernel, by decide +kernel, by decide +kernel⟩
+/-- **the extend–split discipline is strictly re-entrant** (mirror of the code since commit 48b37d3): for EVERY state,
+evaluating the evaluated state again — no refinement in between — returns the same state and the same observation,
+because the first evaluation has marked all areas as accounted for. -/
+theorem incremental_reentrant (s : AccState) :
+    incMachine.eval (incMachine.eval s).1 = ((incMachine.eval s).1, (incMachine.eval s).2) := by
+  show incEval (incEval s).1 = ((incEval s).1, (incEval s).2)
+  have hst : (incEval (incEval s).1).1 = (incEval s).1 := by
+    have h0 : sumR ([] : List Rat) = 0 := rfl
+    simp only [incEval]
+    simp [h0]
+  exact Prod.ext hst (by show (incEval (incEval s).1).1.obs = (incEval s).1.obs; rw [hst])
 
-/-- hence no statement "resume = single run" can hold for the incremental discipline without the re-entrance
-hypothesis -/
+/-- **hence stop-and-continue of the extend–split discipline ends where the single run ends**, for all limits that grow,
+all start states and every interruption index: `resume_eq_single` with its hypothesis discharged by
+`incremental_reentrant` (every stopped state is an evaluated state). -/
+theorem resume_incremental (L1 L2 : Limits) (hg : L1.grow L2) (f f1 f2 : Nat) (s0 : AccState)
+    (r r1 : Result AccState) (hr : run incMachine L2 f s0 = some r) (hr1 : run incMachine L1 f1 s0 = some r1)
+    (hf2 : r.refines < f2 + r1.refines) :
+    ∃ r2, resume incMachine L1 L2 f1 f2 s0 = some r2 ∧ r2.state = r.state ∧ r2.last.err = r.last.err ∧
+      r2.last.pts = r.last.pts ∧ r1.refines + r2.refines = r.refines := by
+  obtain ⟨i, _, _, _, hrr1⟩ := (loop_eq_some_iff incMachine L1 f1 s0 Hist.empty 0 r1).1 hr1
+  have hre : incMachine.eval r1.state = (r1.state, r1.last) := by
+    rw [hrr1]
+    exact incremental_reentrant (iter incMachine s0 i)
+  obtain ⟨r2, h1, h2, h3, h4, h5, _⟩ := resume_eq_single incMachine L1 L2 hg f f1 f2 s0 r r1 hr hr1 hre hf2
+  exact ⟨r2, h1, h2, h3, h4, h5⟩
+
+/-- the discipline of the code BEFORE commit 48b37d3, kept only as an abstract machine: the evaluation adds the new areas
+but does not record that it did -/
+def leakyEval (s : AccState) : AccState × Obs :=
+  let s' := { s with acc := s.acc + sumR (s.areas.drop s.startNew), vols := s.areas }
+  (s', s'.obs)
+
+def leakyMachine : Machine AccState := ⟨leakyEval, accRefine true⟩
+
+/-- **the re-entrance hypothesis cannot be dropped**: for arbitrary machines "limits grow ⇒ stop-and-continue ends with the
+result of the single run" is false — `leakyMachine`, limits `max 2 → max 3`: single run 9/16, stop+continue 15/16. -/
 theorem resume_eq_single_fails_without_reentrance :
-    ¬ ∀ (L1 L2 : Limits) (s0 : AccState), L1.grow L2 →
-      (resume incMachine L1 L2 5 5 s0).map (·.state.acc) = (run incMachine L2 5 s0).map (·.state.acc) := by
+    ¬ ∀ (M : Machine AccState) (L1 L2 : Limits) (s0 : AccState), L1.grow L2 →
+      (resume M L1 L2 5 5 s0).map (·.state.acc) = (run M L2 5 s0).map (·.state.acc) := by
   intro h
-  have h1 := h stopAt3 stopAt4 esStart resume_counterexample_incremental.1
-  have h2 : (resume incMachine stopAt3 stopAt4 5 5 esStart).map (·.state.acc) = some (15/16) := by decide +kernel
-  have h3 : (run incMachine stopAt4 5 esStart).map (·.state.acc) = some (9/16) := by decide +kernel
+  have h1 := h leakyMachine stopAt3 stopAt4 esStart ⟨by decide +kernel, by decide, by show (2 : Int) ≤ 3; decide⟩
+  have h2 : (resume leakyMachine stopAt3 stopAt4 5 5 esStart).map (·.state.acc) = some (15/16) := by decide +kernel
+  have h3 : (run leakyMachine stopAt4 5 esStart).map (·.state.acc) = some (9/16) := by decide +kernel
   rw [h2, h3] at h1
   exact absurd h1 (by decide +kernel)
 
@@ -202,6 +228,12 @@ example : ∀ s t : AccState, s = t → SameButVols (scrMachine.eval s).1 (scrMa
   fun s t h => by rw [h]; exact ⟨rfl, rfl, rfl, rfl, rfl⟩
 example : ReentrantAt scrMachine (· = ·) SameButVols (scrMachine.eval dwStartRef).1 (scrMachine.eval dwStartRef).2 :=
   scratch_reentrant dwStartRef 1 rfl
+-- the extend–split witness: single run and stop+continue now agree (9/16, same areas), arrays differ by the doubled entry
+example : (run incMachine stopAt4 5 esStart).map (fun r => (r.state.acc, r.state.areas, r.hist.pts)) =
+    some (9/16, [1/4, 1/8, 1/8, 1/16], [2, 3, 4]) := by decide +kernel
+example : (resume incMachine stopAt3 stopAt4 5 5 esStart).map (fun r => (r.state.acc, r.state.areas, r.hist.pts)) =
+    some (9/16, [1/4, 1/8, 1/8, 1/16], [2, 3, 3, 4]) := by decide +kernel
+example : stopAt3.grow stopAt4 := ⟨by decide +kernel, by decide, by show (2 : Int) ≤ 3; decide⟩
 -- a strictly re-entrant machine (hypothesis of `resume_eq_single`): the replay of a recorded stream
 example : (streamMachine ⟨0, 0, 0⟩).eval [⟨1/2, 5, 1⟩, ⟨1/4, 9, 1/2⟩] = ([⟨1/2, 5, 1⟩, ⟨1/4, 9, 1/2⟩], ⟨1/2, 5, 1⟩) := rfl
 example : (⟨1/4, 1, some 4⟩ : Limits).grow ⟨1/8, 2, some 20⟩ :=
